@@ -26,6 +26,7 @@ def shapes(t):
         out.append(dict(kind='fixed', method=m, target=target, ctype=ctype, bcap=2))
     for dp in MULTIPART_DISPOSITION_PREFIXES:
         for ln_ in ((2, 2), (0, 1)): out.append(dict(kind='multipart', disp_prefix=dp, lens=ln_))
+    out.append(dict(kind='multipart', disp_prefix='form-data; name=', lens=(0, 1), eol='\n'))
     # storage faults: any read of an existing file may fail (the error responses built on those paths carry the headers too)
     for t_ in ('/a', '/', '/style.css', '/a/'): out.append(dict(kind='iofault', target=t_))
     return out
@@ -51,7 +52,7 @@ def build_request(p, cons):
         if p.get('ctype'): head += 'Content-Type: %s\r\n' % p['ctype']
         return S(head + '\r\n').concat(b), {'b': b}
     if k == 'multipart':
-        return multipart_request(cons, p['disp_prefix'], lens=tuple(p.get('lens', (2, 2))))
+        return multipart_request(cons, p['disp_prefix'], lens=tuple(p.get('lens', (2, 2))), eol=p.get('eol', '\r\n'))
     if k == 'iofault':
         return S('GET %s HTTP/1.1\r\nOrigin: http://o\r\n\r\n' % p['target']), {}
     raise ValueError(k)
